@@ -130,6 +130,8 @@ def i1(chk, repo):
         a = Acc(t)
         ms, cgs = a.per_surface("_structural_mass"), a.per_surface("_cg_location")
         W0, cg0, Wf, n, g, W = a.s("W0"), a.s("empty_cg"), a.s("fuelburn"), a.s("load_factor"), grav(repo), a.s("total_weight")
+        if n is None:
+            n = t.get("load_factor")
         if None in (W0, cg0, Wf, n, g, W) or not ms:
             chk.undecided("I1", "CenterOfGravity", c.where, "symbols not found")
             continue
@@ -210,4 +212,64 @@ def run(chk, repo, tier):
     from .c01 import p7
 
     i1(chk, repo)
+    i3(chk, repo)
     p7(chk, repo, tier, only={"TotalLiftDrag", "Equilibrium", "BreguetRange", "CenterOfGravity", "ReynoldsComp", "Coeffs"}, rule="I2")
+
+
+# --------------------------------------------------------------------------- I3
+def i3(chk, repo):
+    """Mutual consistency of the literal standard-atmosphere tables (constant
+    folding of the source data; no code is run)."""
+    import ast
+    import math
+
+    from ..load import AnalysisError, const_fold
+
+    chk.rule("I3", "the tabulated standard-atmosphere data are mutually consistent at every node: a = sqrt(gamma R T), P = rho R T (English units of the table), temperature / pressure / density / speed-of-sound columns have the same length as the altitude column, altitude strictly increasing, pressure and density strictly decreasing", min_decided=200)
+    m = repo.module("openaerostruct/common/atmos_comp.py")
+    tabs = {}
+    for st in m.tree.body:
+        if isinstance(st, ast.Assign) and isinstance(st.targets[0], ast.Attribute) and isinstance(st.targets[0].value, ast.Name) and st.targets[0].value.id == "USatm1976Data":
+            try:
+                tabs[st.targets[0].attr] = ([float(x) for x in const_fold(st.value)], st.lineno)
+            except (ValueError, TypeError):
+                pass
+    need = ("alt", "T", "P", "rho", "a")
+    if any(k not in tabs for k in need):
+        raise AnalysisError("atmosphere tables %s not found as literal data in atmos_comp.py" % [k for k in need if k not in tabs])
+    alt, T, P, rho, a = (tabs[k][0] for k in need)
+    n = len(alt)
+    for k in need[1:]:
+        key = "USatm1976Data.%s: length" % k
+        w = "%s:%d" % (m.rel, tabs[k][1])
+        if len(tabs[k][0]) == n:
+            chk.ok("I3", key, w, "%d entries" % n)
+        else:
+            chk.violation("I3", key, w, "column has %d entries, altitude has %d" % (len(tabs[k][0]), n))
+            return
+    R, gam = 1716.49, 1.4  # ft*lbf/(slug*degR), ratio of specific heats (US standard atmosphere 1976)
+    TOL = 5e-4  # table entries are rounded to 5-6 significant digits (observed consistency 1e-4)
+    for i in range(n):
+        h = alt[i]
+        wa = "%s:%d" % (m.rel, tabs["a"][1] + 2 + i)
+        wp = "%s:%d" % (m.rel, tabs["P"][1] + 2 + i)
+        da = abs(a[i] - math.sqrt(gam * R * T[i])) / a[i]
+        key = "speed of sound at %g ft" % h
+        if da < TOL:
+            chk.ok("I3", key, wa, "a = sqrt(gamma R T) to %.1e" % da)
+        else:
+            chk.violation("I3", key, wa, "tabulated speed of sound %s ft/s differs from sqrt(gamma R T) = %.2f ft/s by %.1f%%: speed of sound, v = M a and the Reynolds number are inconsistent with the temperature around this altitude" % (a[i], math.sqrt(gam * R * T[i]), 100 * da))
+        dp = abs(P[i] * 144.0 - rho[i] * R * T[i]) / (P[i] * 144.0)
+        key = "ideal gas at %g ft" % h
+        if dp < TOL:
+            chk.ok("I3", key, wp, "P = rho R T to %.1e" % dp)
+        else:
+            chk.violation("I3", key, wp, "tabulated pressure %s psi differs from rho R T = %.5f psi by %.1f%%: the atmosphere outputs are not mutually consistent around this altitude" % (P[i], rho[i] * R * T[i] / 144.0, 100 * dp))
+    for nm, arr, inc in (("alt", alt, True), ("P", P, False), ("rho", rho, False)):
+        bad = [i for i in range(1, n) if (arr[i] <= arr[i - 1]) == inc]
+        key = "USatm1976Data.%s: strictly %s" % (nm, "increasing" if inc else "decreasing")
+        w = "%s:%d" % (m.rel, tabs[nm][1])
+        if not bad:
+            chk.ok("I3", key, w, "monotone")
+        else:
+            chk.violation("I3", key + " at %g ft" % alt[bad[0]], "%s:%d" % (m.rel, tabs[nm][1] + 2 + bad[0]), "%s is not monotone at %g ft (%s after %s)" % (nm, alt[bad[0]], arr[bad[0]], arr[bad[0] - 1]))
